@@ -9,27 +9,32 @@ extra = sys.argv[3:]
 dst = '/verif/seeded/' + sid
 os.makedirs(dst, exist_ok=True)
 for f in ('patch.diff', 'demo.rs', 'meta.json'):
-    shutil.copy(os.path.join(src, f), os.path.join(dst, f))
+    if os.path.abspath(src) != os.path.abspath(dst): shutil.copy(os.path.join(src, f), os.path.join(dst, f))
 meta = json.load(open(os.path.join(dst, 'meta.json')))
 prop = meta.get('property')
 def sh(cmd, cwd=None, timeout=3000):
     p = subprocess.run(cmd, shell=True, cwd=cwd, capture_output=True, text=True, timeout=timeout)
     return p.returncode, p.stdout + p.stderr
+RECHECK = os.environ.get('SEED_RECHECK') == '1' and meta.get('evaluation', {}).get('confirmed')
 wt = '/tmp/sv-' + sid
-sh('git -C /repo worktree remove --force %s' % wt)
-rc, out = sh('git -C /repo worktree add -q %s HEAD' % wt)
-env = 'CARGO_TARGET_DIR=%s/target CARGO_NET_OFFLINE=true' % wt
-shutil.copy(os.path.join(dst, 'demo.rs'), wt + '/tests/seed_demo.rs')
-rc0, out0 = sh('%s cargo test --offline --test seed_demo 2>&1 | tail -15' % env, cwd=wt)
-base_ok = 'test result: ok' in out0
-rc, out = sh('git apply %s/patch.diff' % dst, cwd=wt)
-applied = rc == 0
-rc1, out1 = sh('%s cargo test --offline --test seed_demo 2>&1 | tail -15' % env, cwd=wt)
-demo_fails = 'test result: FAILED' in out1 or 'panicked' in out1
-os.remove(wt + '/tests/seed_demo.rs')
-rc2, out2 = sh('%s cargo test --offline --no-fail-fast 2>&1 | grep -E "^test result|^error" ' % env, cwd=wt)
-suite_ok = 'FAILED' not in out2 and '\nerror' not in ('\n' + out2) and 'test result: ok' in out2
-sh('git -C /repo worktree remove --force %s' % wt)
+if RECHECK:
+    prev = meta['evaluation']
+    base_ok, applied, demo_fails, suite_ok = prev['baseline_demo_passes'], prev['patch_applies'], prev['demo_fails_with_patch'], prev['suite_passes_with_patch']
+if not RECHECK:
+    sh('git -C /repo worktree remove --force %s' % wt)
+    rc, out = sh('git -C /repo worktree add -q %s HEAD' % wt)
+    env = 'CARGO_TARGET_DIR=%s/target CARGO_NET_OFFLINE=true' % wt
+    shutil.copy(os.path.join(dst, 'demo.rs'), wt + '/tests/seed_demo.rs')
+    rc0, out0 = sh('%s cargo test --offline --test seed_demo 2>&1 | tail -15' % env, cwd=wt)
+    base_ok = 'test result: ok' in out0
+    rc, out = sh('git apply %s/patch.diff' % dst, cwd=wt)
+    applied = rc == 0
+    rc1, out1 = sh('%s cargo test --offline --test seed_demo 2>&1 | tail -15' % env, cwd=wt)
+    demo_fails = 'test result: FAILED' in out1 or 'panicked' in out1
+    os.remove(wt + '/tests/seed_demo.rs')
+    rc2, out2 = sh('%s cargo test --offline --no-fail-fast 2>&1 | grep -E "^test result|^error" ' % env, cwd=wt)
+    suite_ok = 'FAILED' not in out2 and '\nerror' not in ('\n' + out2) and 'test result: ok' in out2
+    sh('git -C /repo worktree remove --force %s' % wt)
 confirmed = base_ok and applied and demo_fails and suite_ok
 res = {'confirmed': confirmed, 'baseline_demo_passes': base_ok, 'patch_applies': applied, 'demo_fails_with_patch': demo_fails, 'suite_passes_with_patch': suite_ok}
 det = {}
